@@ -112,8 +112,55 @@ func tokStr(ts []ref.Tok) string {
 	return s
 }
 
-// compareScan runs the real lexer on src and compares with R-tok; returns property ("" if equal) and text.
-func compareScan(im *rt.Impl, lr *ref.LexRef, src []byte) (prop, what string, got, want []ref.Tok) {
+// positionsOf computes line and column of a byte offset from the input alone (C08's definition).
+func positionsOf(src []byte, off int) (line, col int) {
+	line, col = 1, 1
+	for i := 0; i < off && i < len(src); {
+		r, n := utf8.DecodeRune(src[i:])
+		switch r {
+		case '\n':
+			line++
+			col = 1
+		case '\r':
+			col = 1
+		case '\t':
+			col += 4
+		default:
+			col++
+		}
+		i += n
+	}
+	return
+}
+
+// intrinsicPositions checks what C08 says about every returned token WITHOUT reference to how the input should be
+// tokenized: the literal is exactly the input bytes at the reported offset, lexemes do not overlap or go backwards,
+// line and column are those of the offset, the end-of-input token sits at len(src).
+func intrinsicPositions(src []byte, got []ref.Tok) string {
+	end := 0
+	for i, t := range got {
+		if t.Offset < 0 || t.Offset+len(t.Lit) > len(src) || string(src[t.Offset:t.Offset+len(t.Lit)]) != t.Lit {
+			return fmt.Sprintf("token %d (%s %q) reports offset %d but the input bytes there are different", i, t.Type, t.Lit, t.Offset)
+		}
+		if t.Offset < end {
+			return fmt.Sprintf("token %d (%s %q) at offset %d overlaps the previous lexeme ending at %d", i, t.Type, t.Lit, t.Offset, end)
+		}
+		if l, c := positionsOf(src, t.Offset); l != t.Line || c != t.Column {
+			return fmt.Sprintf("token %d (%s %q) at offset %d reports line %d column %d, its offset is at line %d column %d", i, t.Type, t.Lit, t.Offset, t.Line, t.Column, l, c)
+		}
+		if t.Type == "EOF" && t.Offset != len(src) {
+			return fmt.Sprintf("end-of-input token at offset %d, input has %d bytes", t.Offset, len(src))
+		}
+		if t.Type != "EOF" {
+			end = t.Offset + len(t.Lit)
+		}
+	}
+	return ""
+}
+
+// compareScan runs the real lexer on src and compares with R-tok; returns the C01 finding (tokens) and the C08
+// finding (positions), each "" if none. Positions are judged both against R-tok and intrinsically.
+func compareScan(im *rt.Impl, lr *ref.LexRef, src []byte) (c01, c08 string, got, want []ref.Tok) {
 	var pan any
 	var looped bool
 	func() {
@@ -122,11 +169,12 @@ func compareScan(im *rt.Impl, lr *ref.LexRef, src []byte) (prop, what string, go
 	}()
 	want = lr.ScanAll(src, 2)
 	if pan != nil {
-		return "C01", fmt.Sprintf("Scan panicked: %v", pan), got, want
+		return fmt.Sprintf("Scan panicked: %v", pan), "", got, want
 	}
 	if looped {
-		return "C01", "Scan does not reach end of input", got, want
+		return "Scan does not reach end of input", "", got, want
 	}
+	c08 = intrinsicPositions(src, got)
 	n := len(got)
 	if len(want) < n {
 		n = len(want)
@@ -134,16 +182,16 @@ func compareScan(im *rt.Impl, lr *ref.LexRef, src []byte) (prop, what string, go
 	for i := 0; i < n; i++ {
 		g, w := got[i], want[i]
 		if g.Type != w.Type || g.Lit != w.Lit {
-			return "C01", fmt.Sprintf("token %d: got %s %q, the rules define %s %q", i, g.Type, g.Lit, w.Type, w.Lit), got, want
+			return fmt.Sprintf("token %d: got %s %q, the rules define %s %q", i, g.Type, g.Lit, w.Type, w.Lit), c08, got, want
 		}
-		if g.Offset != w.Offset || g.Line != w.Line || g.Column != w.Column {
-			return "C08", fmt.Sprintf("token %d (%s %q): position offset=%d line=%d column=%d, expected offset=%d line=%d column=%d", i, g.Type, g.Lit, g.Offset, g.Line, g.Column, w.Offset, w.Line, w.Column), got, want
+		if c08 == "" && (g.Offset != w.Offset || g.Line != w.Line || g.Column != w.Column) {
+			c08 = fmt.Sprintf("token %d (%s %q): position offset=%d line=%d column=%d, expected offset=%d line=%d column=%d", i, g.Type, g.Lit, g.Offset, g.Line, g.Column, w.Offset, w.Line, w.Column)
 		}
 	}
 	if len(got) != len(want) {
-		return "C01", fmt.Sprintf("%d tokens, the rules define %d", len(got), len(want)), got, want
+		return fmt.Sprintf("%d tokens, the rules define %d", len(got), len(want)), c08, got, want
 	}
-	return "", "", got, want
+	return "", c08, got, want
 }
 
 // probePoints: boundary points of every case of every state plus fixed UTF-8 boundaries.
@@ -205,11 +253,15 @@ func init() {
 		}
 		check := func(src []byte, origin string) {
 			st.add("inputs", 1)
-			prop, what, got, want := compareScan(im, lr, src)
+			c01, c08, got, want := compareScan(im, lr, src)
 			st.add("tokens_compared", int64(len(want)))
-			if prop != "" {
-				st.violation(prop, it.ID+" "+strconv.Quote(string(src)), fmt.Sprintf("input %q: %s", src, what),
-					map[string]any{"input": strconv.Quote(string(src)), "origin": origin, "got": tokStr(got), "want": tokStr(want)})
+			for _, f := range [][2]string{{"C01", c01}, {"C08", c08}} {
+				if f[1] != "" {
+					st.violation(f[0], it.ID+" "+strconv.Quote(string(src)), fmt.Sprintf("input %q: %s", src, f[1]),
+						map[string]any{"input": strconv.Quote(string(src)), "origin": origin, "got": tokStr(got), "want": tokStr(want)})
+				}
+			}
+			if c01 != "" || c08 != "" {
 				return
 			}
 			kinds := map[string]bool{}
